@@ -317,7 +317,11 @@ def build_history(sc):
                 d = dict(_own(SRC1, dests, dst))[w]
                 ev.append({'e': 'merge_push', 'branch': w, 'other': d, 'label': label('mmerge'), 'c15_manual': True})
     ev.append({'e': 'comment', 'pr': 1, 'user': 'author', 'text': '@bert-e ' + sc['cmd']})
-    ev.append({'e': 'job_pr', 'pr': 1, 'c15': 'reset'})
+    reset_job = {'e': 'job_pr', 'pr': 1, 'c15': 'reset'}
+    if sc.get('git_fail') is not None:
+        # one git command of the reset evaluation fails once (stale lock in the mirror cache, network hiccup)
+        reset_job['fault'] = {'mode': 'git_fail', 'cmd_index': sc['git_fail']}
+    ev.append(reset_job)
     ev.append({'e': 'job_pr', 'pr': 1, 'c15': 'rebuild'})
     return {'cfg': cfg, 'events': ev, 'c15': {'src': SRC1, 'dst': dst, 'dests': dests, 'pr': 1, 'cmd': sc['cmd']},
             'scenario': sc}
@@ -417,6 +421,18 @@ def run_history(history, exe, facts):
                 out['violations'].append({'monitor': 'scope', 'detail': v})
             if model is None:
                 continue
+            if rec.get('fault_fired'):
+                # a git command of this evaluation failed: the job may crash, but the first sentence of the statement
+                # stands - with a held manual commit a plain reset deletes nothing
+                count('git_fault_fired:%s' % obs['status'])
+                m = mon_c15.parse_answer(model.batch([req])[0])
+                for v in mon_c15.mon_refuse(world, tr, ctxd, m, obs, before, after, force, faulted=True):
+                    out['violations'].append({'monitor': 'refuse', 'detail': v})
+                out['nontrivial'].append('%s|%s|git_fail=%s|%s|%s' % (
+                    history['scenario']['layout'], meta['cmd'], history['scenario'].get('git_fail'), m['demand'],
+                    obs['status']))
+                tr.observe()
+                continue
             m = mon_c15.parse_answer(model.batch([req])[0])
             inv_n = {v: k for k, v in ctxd['names'].items()}
             # (a) git log sets of the model against the real ones
@@ -504,6 +520,7 @@ def scenarios(ctx):
         res.append({'layout': 'L3', 'mode': 'noqueue', 'ops': ['P1', 'E', 'Ms1'], 'cmd': 'reset'})
         res.append({'layout': 'S4', 'mode': 'noqueue', 'ops': ['D', 'Md2', 'P1'], 'cmd': 'reset'})
         res.append({'layout': 'L3', 'mode': 'noqueue', 'ops': ['E', 'P0', 'J'], 'cmd': 'reset', 'no_octopus': True})
+        res += git_fault_scenarios(range(0, 12))
         return res
     # thorough: everything of length <= 1, then a seeded stratified sample of lengths 2..4
     full = []
@@ -531,6 +548,18 @@ def scenarios(ctx):
                         'cmd': rng.choice(['reset', 'reset', 'force_reset']),
                         'no_octopus': rng.random() < 0.15})
     ctx.count('scenario_space_len<=4', len(full))
+    res += git_fault_scenarios(range(0, 40))
+    return res
+
+
+def git_fault_scenarios(ks):
+    """A manual commit is pushed on an integration branch after the robot last refreshed its mirror cache, then the
+    evaluation that executes `reset` runs while one of its git commands fails once (position k)."""
+    res = []
+    for k in ks:
+        res.append({'layout': 'L3', 'mode': 'noqueue', 'ops': ['P0'], 'cmd': 'reset', 'git_fail': k})
+        if k % 3 == 0:
+            res.append({'layout': 'L2', 'mode': 'queue', 'ops': ['E', 'J', 'P0'], 'cmd': 'reset', 'git_fail': k})
     return res
 
 
